@@ -58,8 +58,8 @@ func (lex *Lexer) Lex() *token.Token {
 
         lnum = [0-9]+('_'[0-9]+)*;
         dnum = (lnum?"." lnum)|(lnum"."lnum?);
-        hnum = '0x'[0-9a-fA-F]+('_'[0-9a-fA-F]+)*;
-        bnum = '0b'[01]+('_'[01]+)*;
+        hnum = '0'[xX][0-9a-fA-F]+('_'[0-9a-fA-F]+)*;
+        bnum = '0'[bB][01]+('_'[01]+)*;
 
         exponent_dnum = (lnum | dnum) ('e'|'E') ('+'|'-')? lnum;
         varname_first = [a-zA-Z_] | (0x0080..0x00FF);
